@@ -145,6 +145,35 @@ struct SolverCfg {
         s.cacheDensityProfileCoefficients(cache_coef != 0);
         s.cacheDomainGeometry(cache_geom != 0);
     }
+    // only the setters of options whose value differs from `prev` are called - as user code that changes a few options
+    // between two solves does (re-applying every option would mask state that setup()/solve() corrupt in the object)
+    void applyChanged(GMGPolar& s, const SolverCfg& prev) const
+    {
+        if (R0 != prev.R0) s.R0(R0);
+        if (Rmax != prev.Rmax) s.Rmax(Rmax);
+        if (nr_exp != prev.nr_exp) s.nr_exp(nr_exp);
+        if (ntheta_exp != prev.ntheta_exp) s.ntheta_exp(ntheta_exp);
+        if (aniso != prev.aniso) s.anisotropic_factor(aniso);
+        if (div != prev.div) s.divideBy2(div);
+        if (dirbc != prev.dirbc) s.DirBC_Interior(dirbc != 0);
+        if (fmg != prev.fmg) s.FMG(fmg != 0);
+        if (fmg_its != prev.fmg_its) s.FMG_iterations(fmg_its);
+        if (fmg_cycle != prev.fmg_cycle) s.FMG_cycle(static_cast<MultigridCycleType>(fmg_cycle));
+        if (extrapolation != prev.extrapolation) s.extrapolation(static_cast<ExtrapolationType>(extrapolation));
+        if (max_levels != prev.max_levels) s.maxLevels(max_levels);
+        if (pre != prev.pre) s.preSmoothingSteps(pre);
+        if (post != prev.post) s.postSmoothingSteps(post);
+        if (cycle != prev.cycle) s.multigridCycle(static_cast<MultigridCycleType>(cycle));
+        if (max_its != prev.max_its) s.maxIterations(max_its);
+        if (norm != prev.norm) s.residualNormType(static_cast<ResidualNormType>(norm));
+        if (abs_tol != prev.abs_tol) s.absoluteTolerance(abs_tol);
+        if (rel_tol != prev.rel_tol) s.relativeTolerance(rel_tol);
+        if (threads != prev.threads) s.maxOpenMPThreads(threads);
+        if (reduction != prev.reduction) s.threadReductionFactor(reduction);
+        if (strategy != prev.strategy) s.stencilDistributionMethod(static_cast<StencilDistributionMethod>(strategy));
+        if (cache_coef != prev.cache_coef) s.cacheDensityProfileCoefficients(cache_coef != 0);
+        if (cache_geom != prev.cache_geom) s.cacheDomainGeometry(cache_geom != 0);
+    }
     std::unique_ptr<GMGPolar> make() const
     {
         auto s = std::make_unique<GMGPolar>();
